@@ -266,14 +266,30 @@ func indexRule(p *Prog, r *Report, id string) {
 			r.Bad("method.satisfiesContext", p.PosStr(fi.Decl.Pos()), "satisfiesContext is no longer `every required context type is available`")
 		}
 	}
-	if fi, sf := needFunc(p, r, "method.(*Index).Register"); fi != nil {
-		n := len(callsIn(sf, false, func(o *types.Func) bool { return o.Name() == "checkOverlap" }))
+	if fi, _ := needFunc(p, r, "method.(*Index).Register"); fi != nil {
+		// Register and the private helpers it delegates to
+		region := p.Region("method.(*Index).Register")
+		inRegion := map[*types.Func]bool{}
+		for _, f := range region {
+			inRegion[f.Obj.Origin()] = true
+		}
+		n := 0
 		okErr := true
-		for _, ec := range errorCalls(sf) {
-			if ec.calle != nil && ec.calle.Name() == "checkOverlap" {
-				for _, v := range ec.vals {
-					if vd := checkErrValue(ec, v); !vd.ok {
+		for _, f := range region {
+			sf := p.SSAFunc(f)
+			if sf == nil {
+				continue
+			}
+			n += len(callsIn(sf, false, func(o *types.Func) bool { return o.Name() == "checkOverlap" }))
+			for _, ec := range errorCalls(sf) {
+				if ec.calle != nil && (ec.calle.Name() == "checkOverlap" || inRegion[ec.calle.Origin()]) {
+					if len(ec.vals) < ec.nErr {
 						okErr = false
+					}
+					for _, v := range ec.vals {
+						if vd := checkErrValue(ec, v); !vd.ok {
+							okErr = false
+						}
 					}
 				}
 			}
